@@ -298,7 +298,7 @@ func (f *file) Read(p []byte) (int, error) {
 	n := copy(p[:limit], f.n.Data[f.off:])
 	f.off += n
 	if eofWithData && f.off >= len(f.n.Data) && (f.n.FailReadAt <= 0 || f.n.FailReadAt > len(f.n.Data)) {
-		simCount("fs-eof-with-data")
+		simrt.Probe("fs-eof-with-data") // legal reader behaviour, not a fault
 		return n, io.EOF
 	}
 	return n, nil
